@@ -336,3 +336,15 @@ def c19(r):
     r.exhaustive = True
     r.extra['bounds'] = '17 programs (10 return shapes, 5 failures, function/handler) x 4 argument vectors x {file, -, --out}; 8 invalid texts x 3 modes; 3 interactive sessions x 2 argument vectors; 24 expressions + 4 invalid for -e'
     r.conform(scs, workers=8, tmo=60)
+
+
+@prop('C01')
+def c01(r):
+    r.level = 'exploration'
+    r.assumptions += ['memory safety and absence of undefined behaviour are OBSERVED (ASan/UBSan) on the replayed texts, not proved',
+                      'stack/heap exhaustion is out of scope: generated texts have bounded nesting; allocation sizes are bounded (tab/raw counts are small)']
+    scs = r.gen('Gen_C01', 'Gen_C01.cfg', timeout=3000)
+    r.extra['bounds'] = 'vocabulary product: 44 built-ins x 1 arg x 43 kinds x {direct, opaque}, 17 x 2 args, 6 x 3 args, 25 binary x 43^2, members, @/set@ with huge ranks; single edits (cut, delete, duplicate, swap, replace) of 3 seed programs at every token; 14 byte classes spliced at every byte position'
+    obs = r.conform(scs, workers=16, tmo=60)
+    texts = sum(len(s['steps']) for s in scs)
+    r.extra['texts'] = texts
